@@ -171,6 +171,13 @@ func (p *Protocol) Start() {
 
 		if p.muxerDoneChan == nil {
 			p.SendError(errors.New("could not register protocol with muxer"))
+			// None of the protocol goroutines will be started, so mark the
+			// protocol as done here. Otherwise anything waiting on DoneChan
+			// (e.g. cleanup goroutines started by the mini-protocol clients)
+			// would wait forever
+			close(p.recvDoneChan)
+			close(p.sendDoneChan)
+			close(p.doneChan)
 			return
 		}
 
